@@ -186,14 +186,17 @@ def write_evidence(ctx: Ctx, level: str) -> str:
         json.dump(ev, f, indent=1)
         f.write("\n")
     os.replace(tmp, path)
-    try:
-        import jsonschema  # type: ignore
-        with open("/root/.vp/EVIDENCE.schema.json") as f:
-            jsonschema.validate(ev, json.load(f))
-    except ImportError:
-        pass
-    except FileNotFoundError:
-        pass
+    vt = shutil.which("python3-vt")
+    if vt and os.path.exists("/root/.vp/EVIDENCE.schema.json"):
+        import subprocess
+        r = subprocess.run(
+            [vt, "-c", "import json,jsonschema,sys;jsonschema.validate("
+             "json.load(open(sys.argv[1])),json.load(open("
+             "'/root/.vp/EVIDENCE.schema.json')))", path],
+            capture_output=True, text=True)
+        if r.returncode != 0 and "ModuleNotFoundError" not in r.stderr:
+            raise HarnessError("evidence file does not validate: "
+                               + r.stderr[-800:])
     return path
 
 
@@ -250,7 +253,11 @@ def main(argv: list[str]) -> int:
               flush=True)
         traceback.print_exc()
         return 2
-    write_evidence(ctx, level)
+    try:
+        write_evidence(ctx, level)
+    except HarnessError as e:
+        print(f"HARNESS-ERROR property={prop}: {e}", flush=True)
+        return 2
     for k in ctx.known_hits:
         print(f"KNOWN-FINDING: property={prop} {k['signature']}: "
               f"{k['text']}", flush=True)
